@@ -63,7 +63,8 @@ SReset ==
 
 SCall ==
   /\ IsEv("Call") /\ call = NoCall
-  /\ call' = [op |-> Rec[l].op, blk |-> Num(Rec[l].blk), n |-> Rec[l].n, pay |-> Rec[l].pay]
+  \* (block numbers from 2^31 on are beyond every capacity: kept within TLC's integers)
+  /\ call' = [op |-> Rec[l].op, blk |-> IF Rec[l].blk[1] >= 32768 THEN 2147418112 ELSE Num(Rec[l].blk), n |-> Rec[l].n, pay |-> Rec[l].pay]
   /\ seen' = {} /\ first' = TRUE /\ dl' = <<>> /\ nst' = 0 /\ c14' = FALSE
   /\ l' = l + 1
   /\ UNCHANGED <<sid, cfg, c, mem, exp, needinit, alive, stuck, viol, lost>>
